@@ -35,69 +35,4 @@ def rootAdminDirs (tree : List Dir) : List Dir := (walk tree admin).filter (user
 def userMayRead (uid : Name) (d : Dir) : Prop :=
   d = users ∨ (users.isPrefixOf d ∧ ∃ n, d[users.length]? = some n ∧ isNumeric n = false) ∨ (users ++ [uid]).isPrefixOf d
 
-/-- C14, root: nothing at or below users/ -/
-theorem C14_root (tree : List Dir) : ∀ d ∈ rootAdminDirs tree, users.isPrefixOf d = false := by
-  intro d hd
-  simp only [rootAdminDirs, List.mem_filter, userLevelFilter] at hd
-  cases h : users.isPrefixOf d with
-  | false => rfl
-  | true => simp [h] at hd
-
-/-- D10 as a theorem about the model of the pinned code: uid 1001 is served users/2002/sub -/
-theorem C14_counterexample :
-    (users ++ ["2002".toList, "sub".toList]) ∈
-      rootlessAdminDirs false [users, users ++ ["2002".toList], users ++ ["2002".toList, "sub".toList]] "1001".toList := by
-  decide
-
-theorem prefix_getElem (p d : Dir) (x : Name) (h : (p ++ [x]).isPrefixOf d = true) :
-    p.isPrefixOf d = true ∧ d[p.length]? = some x := by
-  induction p generalizing d with
-  | nil =>
-    cases d with
-    | nil => simp [List.isPrefixOf] at h
-    | cons y ys =>
-      simp only [List.nil_append, List.isPrefixOf, Bool.and_eq_true, beq_iff_eq] at h
-      simp [List.isPrefixOf, h.1]
-  | cons a p ih =>
-    cases d with
-    | nil => simp [List.isPrefixOf] at h
-    | cons y ys =>
-      simp only [List.cons_append, List.isPrefixOf, Bool.and_eq_true, beq_iff_eq] at h
-      obtain ⟨h1, h2⟩ := ih ys h.2
-      simp [List.isPrefixOf, h.1, h1, h2]
-
-/-- C14, user, soundness (repaired filter): everything read below the admin tree is permitted -/
-theorem C14_user_sound (tree : List Dir) (uid : Name) (huid : isNumeric uid = true) :
-    ∀ d ∈ rootlessAdminDirs true tree uid, userMayRead uid d := by
-  intro d hd
-  simp only [rootlessAdminDirs, List.mem_append, List.mem_filter, walk, List.mem_singleton] at hd
-  rcases hd with (⟨⟨_, hp⟩, hf⟩ | ⟨⟨_, hp⟩, _⟩) | rfl
-  · right; left
-    refine ⟨hp, ?_⟩
-    simp only [nonNumericFilter, hp, if_true] at hf
-    split at hf
-    · cases hn : d[users.length]? with
-      | none => simp [hn] at hf
-      | some n => simp [hn] at hf; exact ⟨n, rfl, hf⟩
-    · simp at hf
-  · right; right; exact hp
-  · left; rfl
-
-/-- C14, user, completeness (repaired filter): every permitted directory of the tree is read -/
-theorem C14_user_complete (tree : List Dir) (uid : Name) (d : Dir) (hd : d ∈ tree) (h : userMayRead uid d) :
-    d ∈ rootlessAdminDirs true tree uid := by
-  simp only [rootlessAdminDirs, List.mem_append, List.mem_filter, walk, List.mem_singleton]
-  rcases h with rfl | ⟨hp, n, hn, hnum⟩ | hp
-  · right; rfl
-  · left; left
-    refine ⟨⟨hd, hp⟩, ?_⟩
-    obtain ⟨hlen, hget⟩ := List.getElem?_eq_some_iff.mp hn
-    have hlen' : d.length > users.length := hlen
-    simp only [nonNumericFilter, hp, if_true, hlen', hn]
-    simpa using hnum
-  · left; right
-    refine ⟨⟨hd, hp⟩, ?_⟩
-    have := (prefix_getElem users d uid hp).1
-    simp [userLevelFilter, this]
-
 end Srch
